@@ -1,12 +1,13 @@
 (* Correspondence evaluator for the liskbft vote model (C02, shared by C01). *)
 From Coq Require Import List NArith Bool.
-From LE Require Import Base.Corr BFT.Contradiction BFT.Votes.
+From LE Require Import Base.Corr BFT.Contradiction BFT.Votes BFT.GenKeys.
 Import ListNotations.
 Local Open Scope N_scope.
 
 Record obs := { o_err : N; o_contra : bool; o_heights : N * N * N;
                 o_infos : list (N * N * N * N * N * N); o_act : list (N * N * N);
-                o_pkeys : list N; o_imp : N; o_next : option N }.
+                o_pkeys : list N; o_imp : N; o_next : option N;
+                o_gkeys : list N; o_gens : list (N * option (list N)); o_at : list (N * N) }.
 
 Definition hist_case : Type := nat * N * pchange * list block * bool * list obs.
 
@@ -32,9 +33,9 @@ Definition obs_of (s : store) (b : hdr) (contra : bool) (imp : res bool) : obs :
      o_infos := map info_tuple (v_infos v); o_act := map act_tuple (v_act v);
      o_pkeys := map fst (s_params s);
      o_imp := match imp with Ok false => 0 | Ok true => 1 | Error _ => 2 end;
-     o_next := next_params_height (s_params s) (h_height b) |}.
+     o_next := next_params_height (s_params s) (h_height b); o_gkeys := []; o_gens := []; o_at := [] |}.
 Definition err_obs (e : N) (contra : bool) : obs :=
-  {| o_err := e; o_contra := contra; o_heights := (0, 0, 0); o_infos := []; o_act := []; o_pkeys := []; o_imp := 0; o_next := None |}.
+  {| o_err := e; o_contra := contra; o_heights := (0, 0, 0); o_infos := []; o_act := []; o_pkeys := []; o_imp := 0; o_next := None; o_gkeys := []; o_gens := []; o_at := [] |}.
 
 Definition obs_eqb (a b : obs) : bool :=
   (o_err a =? o_err b) && Bool.eqb (o_contra a) (o_contra b) &&
@@ -77,4 +78,72 @@ Definition check_hist (c : hist_case) : N :=
   | Error _ => let ok := negb initok && match observed with [] => true | _ => false end in code ok ok
   | Ok s0 => let m := model_obs batch s0 blocks in
              code (initok && list_eqb obs_eqb m observed) (initok && list_eqb obs_prop_eqb m observed)
+  end.
+
+(* ---- generator keys (BFT/GenKeys.v), threaded next to the vote model ---- *)
+Definition gens_of_addrs (l : list N) : generators := map (fun a => (a, a)) l.
+Definition gobs_eqb (a b : obs) : bool :=
+  if o_err a =? 0 then
+    list_eqb N.eqb (o_gkeys a) (o_gkeys b) &&
+    list_eqb (fun x y => (fst x =? fst y) && match snd x, snd y with
+                                             | None, None => true
+                                             | Some l1, Some l2 => list_eqb N.eqb l1 l2
+                                             | _, _ => false end) (o_gens a) (o_gens b) &&
+    list_eqb (fun x y => (fst x =? fst y) && (snd x =? snd y)) (o_at a) (o_at b)
+  else true.
+
+Definition probe (gs : @kstore generators) (h : N) : N * option (list N) :=
+  (h, match klookup gs h None with Some g => Some (map fst g) | None => None end).
+
+Definition with_gens (o : obs) (gs : @kstore generators) (tip oldest : N) : obs :=
+  {| o_err := o_err o; o_contra := o_contra o; o_heights := o_heights o; o_infos := o_infos o; o_act := o_act o;
+     o_pkeys := o_pkeys o; o_imp := o_imp o; o_next := o_next o;
+     o_gkeys := map fst gs;
+     o_gens := [probe gs (tip + 1); probe gs tip; probe gs oldest];
+     o_at := match klookup gs (tip + 1) None with
+             | Some g => match g with
+                         | [] => []
+                         | _ => let n := N.of_nat (length g) in
+                                flat_map (fun sl => match generator_at g sl with Some x => [(sl, fst x)] | None => [] end)
+                                         [0; 1; n - 1; n; tip * 7; 429496729]
+                         end
+             | None => []
+             end |}.
+
+(* blocks with the generator addresses installed together with a parameter change *)
+Fixpoint model_obs_g (batch : nat) (s : store) (gs : @kstore generators) (l : list (block * list N)) : list obs :=
+  match l with
+  | [] => []
+  | ((b, chg), gaddrs) :: tl =>
+    let contra := chain_contradicting (s_votes s) b in
+    match before_txs batch s b with
+    | Error _ => [err_obs 1 contra]
+    | Ok s1 =>
+      let imp := implies_max_prevotes (s_votes s1) b in
+      (* deleteGeneratorKeys uses the same bound as deleteBFTParams *)
+      let minreq := N.min (oldest_height (v_infos (s_votes s1))) (v_mhc (s_votes s1) + 1) in
+      let gs1 := kprune gs minreq in
+      match chg with
+      | None => with_gens (obs_of s1 b contra imp) gs1 (h_height b) (oldest_height (v_infos (s_votes s1))) :: model_obs_g batch s1 gs1 tl
+      | Some c =>
+        match set_params batch s1 (c_pc c) (c_cert c) (c_vals c) with
+        | Error _ => [err_obs 2 contra]
+        | Ok s2 =>
+          let gs2 := kinsert gs1 (current_height (s_votes s1) + 1) (gens_of_addrs gaddrs) in
+          with_gens (obs_of s2 b contra imp) gs2 (h_height b) (oldest_height (v_infos (s_votes s2))) :: model_obs_g batch s2 gs2 tl
+        end
+      end
+    end
+  end.
+
+Definition hist_case_g : Type := nat * N * pchange * list N * list (block * list N) * bool * list obs.
+
+Definition check_hist_g (c : hist_case_g) : N :=
+  let '(batch, gh, ini, ini_gens, blocks, initok, observed) := c in
+  match init_store batch gh ini with
+  | Error _ => let ok := negb initok && match observed with [] => true | _ => false end in code ok ok
+  | Ok s0 => let gs0 := kinsert [] (gh + 1) (gens_of_addrs ini_gens) in
+             let m := model_obs_g batch s0 gs0 blocks in
+             code (initok && list_eqb obs_eqb m observed && list_eqb gobs_eqb m observed)
+                  (initok && list_eqb obs_prop_eqb m observed && list_eqb gobs_eqb m observed)
   end.
